@@ -36,7 +36,10 @@ type c29cache interface {
 	Purge()
 }
 
-type c29kv struct{ k, v uint64 }
+type c29kv struct {
+	k uint64
+	v string
+}
 
 func c29join(l []string) string {
 	if len(l) == 0 {
@@ -45,11 +48,37 @@ func c29join(l []string) string {
 	return strings.Join(l, ",")
 }
 
+// values: numbers (uint64), "nil" (the nil interface: the cache used as a set), "es" (the empty
+// string, a zero value that is NOT nil).  "v-" / "p-" = absent, "vnil" / "pnil" = present with value nil.
+func c29vtok(v interface{}) string {
+	switch x := v.(type) {
+	case nil:
+		return "nil"
+	case uint64:
+		return vu.U64(x)
+	case string:
+		if x == "" {
+			return "es"
+		}
+	}
+	panic(fmt.Sprintf("unexpected value %#v", v))
+}
+
+func c29pv(s string) interface{} {
+	switch s {
+	case "nil":
+		return nil
+	case "es":
+		return ""
+	}
+	return c29u(s)
+}
+
 func c29val(v interface{}, ok bool) string {
 	if !ok {
 		return "-"
 	}
-	return vu.U64(v.(uint64))
+	return c29vtok(v)
 }
 
 func c29u(s string) uint64 {
@@ -119,7 +148,7 @@ func c29RunRaw(in []string) []string {
 		panic("bad size")
 	}
 	var log []c29kv
-	onEvict := func(k, v interface{}) { log = append(log, c29kv{k.(uint64), v.(uint64)}) }
+	onEvict := func(k, v interface{}) { log = append(log, c29kv{k.(uint64), c29vtok(v)}) }
 	var c c29cache
 	var w *wlru.Cache
 	// suffix "n": built by New (no eviction callback, onEvict == nil); the callback log is then
@@ -158,7 +187,7 @@ func c29RunRaw(in []string) []string {
 		vu.Stat("op_" + o[0])
 		switch o[0] {
 		case "A":
-			n := c.Add(c29u(o[1]), c29u(o[2]), uint(c29u(o[3])))
+			n := c.Add(c29u(o[1]), c29pv(o[2]), uint(c29u(o[3])))
 			res = "n" + strconv.Itoa(n)
 			if n > 0 {
 				vu.Stat("evicting_add")
@@ -179,14 +208,14 @@ func c29RunRaw(in []string) []string {
 		case "RO":
 			k, v, ok := c.RemoveOldest()
 			if ok {
-				res = "kv" + vu.U64(k.(uint64)) + ":" + vu.U64(v.(uint64))
+				res = "kv" + vu.U64(k.(uint64)) + ":" + c29vtok(v)
 			} else {
 				res = "kv-"
 			}
 		case "GO":
 			k, v, ok := c.GetOldest()
 			if ok {
-				res = "kv" + vu.U64(k.(uint64)) + ":" + vu.U64(v.(uint64))
+				res = "kv" + vu.U64(k.(uint64)) + ":" + c29vtok(v)
 			} else {
 				res = "kv-"
 			}
@@ -226,20 +255,20 @@ func c29RunRaw(in []string) []string {
 			if w == nil {
 				panic("ContainsOrAdd exists in wlru only")
 			}
-			ok, n := w.ContainsOrAdd(c29u(o[1]), c29u(o[2]), uint(c29u(o[3])))
+			ok, n := w.ContainsOrAdd(c29u(o[1]), c29pv(o[2]), uint(c29u(o[3])))
 			res = "f" + vu.B(ok) + ":" + strconv.Itoa(n)
 		case "PA":
 			if w == nil {
 				panic("PeekOrAdd exists in wlru only")
 			}
-			p, ok, n := w.PeekOrAdd(c29u(o[1]), c29u(o[2]), uint(c29u(o[3])))
+			p, ok, n := w.PeekOrAdd(c29u(o[1]), c29pv(o[2]), uint(c29u(o[3])))
 			res = "p" + c29val(p, ok) + ":" + strconv.Itoa(n)
 		default:
 			panic("bad op " + o[0])
 		}
 		var ev []string
 		for _, e := range log {
-			ev = append(ev, vu.U64(e.k)+":"+vu.U64(e.v))
+			ev = append(ev, vu.U64(e.k)+":"+e.v)
 		}
 		var ks []string
 		for _, k := range c.Keys() {
@@ -279,6 +308,14 @@ func c29GenOps(r *rand.Rand, impl string, nkeys int, maxw int, nops int, mw int,
 	for i := 0; i < nops; i++ {
 		val++
 		v := strconv.Itoa(val)
+		switch r.Intn(12) { // the cache used as a set (nil values), and zero values that are not nil
+		case 0, 1:
+			v = "nil"
+		case 2:
+			v = "0"
+		case 3:
+			v = "es"
+		}
 		out = append(out, ";")
 		x := r.Intn(100)
 		switch {
@@ -376,6 +413,29 @@ func init() {
 					c29Enum("W", b[0], b[1], 2, emit)
 				}
 			}
+			// values that are nil / zero: presence must be decided by the key, never by the value
+			nilAlpha := [][]string{{"A", "0", "nil", "1"}, {"A", "0", "7", "1"}, {"A", "1", "nil", "0"}, {"A", "1", "0", "2"}, {"PA", "0", "9", "1"},
+				{"PA", "0", "nil", "2"}, {"PA", "1", "es", "1"}, {"CA", "0", "8", "1"}, {"CA", "1", "nil", "1"}, {"P", "0"}, {"G", "0"}, {"R", "0"}}
+			var nrec func(prefix []string, d int)
+			nrec = func(prefix []string, d int) {
+				if d == 0 {
+					return
+				}
+				for _, a := range nilAlpha {
+					q := append(append(append([]string{}, prefix...), ";"), a...)
+					emit(append(append([]string{}, q...), ";", "K")...)
+					nrec(q, d-1)
+				}
+			}
+			nd := 2
+			if tier == "thorough" {
+				nd = 3
+			}
+			for _, h := range [][]string{{"W", "3", "2"}, {"Wn", "3", "2"}, {"W", "1", "1"}, {"W", "100", "100"}, {"Wn", "100", "100"}} {
+				nrec(h, nd)
+			}
+			emit("S", "5", "3", ";", "A", "1", "nil", "1", ";", "G", "1", ";", "P", "1", ";", "C", "1", ";", "A", "2", "es", "1", ";", "A", "3", "0", "1", ";", "GO", ";", "RO", ";", "PU")
+			emit("W", "5", "3", ";", "A", "1", "nil", "1", ";", "PA", "1", "5", "4", ";", "G", "1", ";", "CA", "1", "6", "4", ";", "K", ";", "WT")
 			for i := 0; i < n; i++ {
 				impl := "S"
 				if r.Intn(2) == 0 {
